@@ -4,6 +4,7 @@
 -/
 import KiraModel.Exec.SuiteUnits
 import KiraModel.Exec.SuiteParam
+import KiraModel.Exec.SuiteClock
 
 open K.Exec
 
@@ -20,6 +21,9 @@ def suiteOf (name : String) : Option Suite :=
   match name with
   | "units" => some (statelessSuite unitsStep)
   | "param" => some { σ := ParamState, init := {}, step := paramStep }
+  | "clock" => some { σ := ClockSuiteState, init := {}, step := clockStep }
+  | "clocksys" => some { σ := SysSuiteState, init := {}, step := sysStep }
+  | "clocktear" => some { σ := TearState, init := {}, step := tearStep }
   | _ => none
 
 def tokens (line : String) : List String :=
